@@ -2,7 +2,7 @@
    Each is closed by `exact <lemma>` and followed by Print Assumptions (audited by ./check on every run). *)
 From V.lib Require Import Base.
 From V.c01 Require Import C01Codec C01Model C01LeafProofs C01Leaf2Proofs C01Leaf3Proofs C01Leaf4Proofs C01Leaf5Proofs C01TableProofs C01TreeProofs C01WhyProofs C01Witness C01Witness3
-  C01RealFiles C01RealWitness C01SizeProofs C01LocalProofs C01StableProofs C01FixProofs C01Witness4 C01EsdsProofs C01Witness5.
+  C01RealFiles C01RealWitness C01SizeProofs C01LocalProofs C01StableProofs C01FixProofs C01Witness4 C01EsdsProofs C01SgpdProofs C01Witness5.
 
 (* a compact header written by EncodeHeaderSW is read back by DecodeHeaderSR *)
 Theorem C01_header_rt : forall name sz r, lenN name = 4 -> 8 <= sz < 4294967296 ->
@@ -74,7 +74,7 @@ Theorem C01_leaf_lossless_stage2 :
 Proof. exact (conj lossless_stsc (conj lossless_stsz (conj (lossless_tab 4) (conj (lossless_tab 8) (conj lossless_sdtp (conj lossless_ctts (conj lossless_elst (conj lossless_saiz (conj lossless_saio (conj lossless_sbgp (conj lossless_prft (conj lossless_tenc (conj lossless_frma (conj lossless_vmhd (conj lossless_smhd (conj lossless_fullonly (conj lossless_mfro (conj lossless_mehd (conj lossless_tfra (conj lossless_pssh (conj lossless_url (conj lossless_avcC (conj lossless_btrt lossless_pasp))))))))))))))))))))))). Qed.
 Print Assumptions C01_leaf_lossless_stage2.
 
-(* url avcC btrt pasp colr clap schm cslg senc emsg elng kind; hvcC (whole hevc.DecodeHEVCDecConfRec) subs; esds with its whole descriptor tree; uuid (tfxd, tfrf, PIFF senc, unknown); the field prefixes of stsd dref Visual/AudioSampleEntry (MPre) *)
+(* url avcC btrt pasp colr clap schm cslg senc emsg elng kind; hvcC (whole hevc.DecodeHEVCDecConfRec) subs; esds with its whole descriptor tree; uuid (tfxd, tfrf, PIFF senc, unknown); sgpd (seig, roll, rap, alst, unknown entries); the field prefixes of stsd dref Visual/AudioSampleEntry (MPre) *)
 Theorem C01_leaf_lossless_stage3 :
   leaf_lossless dec_colr /\
   leaf_lossless dec_clap /\
@@ -88,11 +88,12 @@ Theorem C01_leaf_lossless_stage3 :
   leaf_lossless dec_subs /\
   leaf_lossless dec_esds /\
   leaf_lossless dec_uuid /\
+  leaf_lossless dec_sgpd /\
   leaf_lossless dec_stsd /\
   leaf_lossless dec_dref /\
   leaf_lossless dec_visual /\
   leaf_lossless dec_audio.
-Proof. exact (conj lossless_colr (conj lossless_clap (conj lossless_schm (conj lossless_cslg (conj lossless_senc (conj lossless_emsg (conj lossless_elng (conj lossless_kind (conj lossless_hvcC (conj lossless_subs (conj lossless_esds (conj lossless_uuid (conj lossless_stsd (conj lossless_dref (conj lossless_visual lossless_audio))))))))))))))). Qed.
+Proof. exact (conj lossless_colr (conj lossless_clap (conj lossless_schm (conj lossless_cslg (conj lossless_senc (conj lossless_emsg (conj lossless_elng (conj lossless_kind (conj lossless_hvcC (conj lossless_subs (conj lossless_esds (conj lossless_uuid (conj lossless_sgpd (conj lossless_stsd (conj lossless_dref (conj lossless_visual lossless_audio)))))))))))))))). Qed.
 Print Assumptions C01_leaf_lossless_stage3.
 
 
